@@ -441,7 +441,7 @@ class Machine:
             if not s.timer_fired and not timer_known_off:
                 out.append(m.timeout_method)
             out.append("connection_lost")
-        for cb in sorted(s.pending):
+        for cb in sorted({p.split("#")[0] for p in s.pending}):
             out.append(cb)
         return out
 
@@ -456,7 +456,7 @@ class Machine:
         return h
 
     def _violate(self, kind, chain, entry, msg, node: Node | None, s, seen, g, pr, extra="") -> None:
-        if kind in ("double-dispatch", "write-after-close", "second-header", "half-response"):
+        if kind in ("double-dispatch", "double-consult", "write-after-close", "second-header", "half-response"):
             # the run is already broken beyond repair: continuations of this
             # state would only repeat the same report
             self._n_viol += 1
@@ -483,7 +483,11 @@ class Machine:
         first_disp = s.first_disp
         timer_fired = s.timer_fired or entry == m.timeout_method
         lost = s.lost or entry == "connection_lost"
-        if entry in pending:
+        # pending callbacks are a multiset capped at two instances per callback
+        # (`cb`, `cb#2`): two tasks started by two reads both complete
+        if entry + "#2" in pending:
+            pending.discard(entry + "#2")
+        elif entry in pending:
             pending.discard(entry)
         in_mw_callback = entry in self.mw_callbacks
         resp_ctx = None  # sink activation (call stack) that started a response
@@ -509,11 +513,17 @@ class Machine:
                 closed = True
                 wrote_open = False
             elif e.kind == "consult":
+                if gate == "consulted":
+                    self._violate(
+                        "double-consult", e.chain, entry,
+                        "the middleware chain is consulted a second time on one connection (each consultation charges the rate limiter and leads to its own handler invocation)",
+                        node, s, seen, g, pr,
+                    )
                 gate = "consulted"
                 if not e.timer_off and not timer_fired:
                     self._violate("timer-at-dispatch", e.chain, entry, "middleware is consulted for a complete request while the request timer is still armed", node, s, seen, g, pr)
             elif e.kind == "pending":
-                pending.add(e.info)
+                pending.add(e.info + "#2" if e.info in pending else e.info)
                 self.callbacks.add(e.info)
             elif e.kind == "dispatch":
                 ndisp += 1
